@@ -527,7 +527,18 @@ func (fr *Frame) applyContract(site ssa.Instruction, k *FuncContract, ce callee,
 		if fr.parent != nil {
 			nm = fmt.Sprintf("%s/%s/%s (in %s)/requires[%s]", vc.prop, vc.qname, label, QualName(fr.fn), rq.Name)
 		}
-		vc.oblige("requires", nm, rq.Src, *reach, g, site.Pos(), rq.Claimed && rq.appliesTo(vc.prop))
+		// a precondition is an obligation of the property being checked only if the
+		// clause (or, for untagged clauses, the callee's contract) belongs to it;
+		// otherwise it is assumed here and checked when its own property runs
+		applies := rq.appliesTo(vc.prop)
+		if len(rq.Props) == 0 && len(k.Props) > 0 && !k.hasProp(vc.prop) {
+			applies = false
+		}
+		if !applies {
+			vc.assume(*reach, g)
+			continue
+		}
+		vc.oblige("requires", nm, rq.Src, *reach, g, site.Pos(), rq.Claimed)
 	}
 	// havoc the frame
 	if k.Flags["libframe"] {
@@ -538,6 +549,7 @@ func (fr *Frame) applyContract(site ssa.Instruction, k *FuncContract, ce callee,
 		}
 	} else if k.ModAll || !k.HasMod && !k.Flags["pure"] {
 		if !k.Flags["pure"] {
+			vc.Unmodelled["callee contract without modifies clause (heap havocked): "+ce.name]++
 			vc.havocAll(st, *reach)
 		}
 	} else {
@@ -689,7 +701,7 @@ func (vc *VC) modsOfBlocks(fr *Frame, blocks map[*ssa.BasicBlock]bool) ([]string
 	}
 	if ms.lib {
 		for _, v := range sortedKeys(vc.hsort) {
-			if strings.HasPrefix(v, "E!") || strings.HasPrefix(v, "C!") || vc.libVars[v] {
+			if ((strings.HasPrefix(v, "E!") || strings.HasPrefix(v, "C!")) && !vc.modElem[v]) || vc.libVars[v] {
 				ms.vars[v] = true
 			}
 		}
